@@ -196,7 +196,8 @@ def serial_rows(tier, seed, root, budget_s):
                 break
     big = _row('cell_type_mapper.utils.csc_to_csr.transpose_sparse_matrix_on_disk', FORM_RND,
                'random matrices up to 40x30 with 101-700 stored entries, budget 1e-9 GB (both enforced '
-               'minimum chunk sizes of 100 are crossed), with / without value array, random indices_slice')
+               'minimum chunk sizes of 100 are crossed), with / without value array, random indices_slice; '
+               'block-diagonal matrices 32x32-50x50 with float64 values above 2**24 at budgets {1e-9,1e-7,1e-6,1}')
     n_big = 12 if tier == 'quick' else 150
     for k in range(n_big):
         r, c = rng.randint(8, 40), rng.randint(6, 30)
@@ -222,6 +223,24 @@ def serial_rows(tier, seed, root, budget_s):
         _note(big, (k, int((a != 0).sum())))
         for f in fails:
             _fail(big, **f)
+    # structured sparsity: block-diagonal matrices (whole load chunks hold no entry of a block of
+    # slices) and values that single precision cannot hold, at budgets from tiny to ample
+    for k in range(2 if tier == 'quick' else 10):
+        nb = rng.choice([4, 5])
+        bs = rng.choice([8, 10])
+        a = np.zeros((nb * bs, nb * bs))
+        v = 2 ** 24 + 1
+        for b0 in range(0, nb * bs, bs):
+            for i in range(b0, b0 + bs):
+                for j in range(b0, b0 + bs):
+                    if k % 2 == 0 or rng.random() < 0.6:
+                        v += 2
+                        a[i, j] = v + 1.0 / 3.0
+        for gb in (1e-9, 1e-7, 1e-6, 1.0):
+            fails = _run_serial(a, True, gb, None, root, h5_handles=False, tag='bd')
+            _note(big, ('block-diagonal', k, gb))
+            for f in fails:
+                _fail(big, **f)
     return [_done(exh), _done(big)]
 
 
